@@ -37,6 +37,11 @@ type Policy struct {
 	// NoLoneCR keeps a lone CR out of inter-token whitespace (finding lone-cr-newline); Excluded counts the draws it replaced.
 	NoLoneCR bool
 	Excluded *int
+	// LoneCRInGaps lets ordinary inter-token whitespace contain a lone CR although NoLoneCR is set (the
+	// places where the scanner needs a newline or a blank — behind an open tag, behind a heredoc's
+	// closing label — stay protected). Used by the check that tolerates exactly the known failure
+	// mode of finding lone-cr-newline and nothing else.
+	LoneCRInGaps bool
 }
 
 // Layout is the result of rendering a tree under a policy.
@@ -200,7 +205,9 @@ func (p *Policy) triviaPieces(kind GapKind, must bool, prevLast byte, lay *Layou
 			lay.Classes["hash-comment"] = true
 		default:
 			w := wsChoices[p.draw(len(wsChoices), "ws")]
-			if p.NoLoneCR && hasLoneCR(w) {
+			// (whitespace-only gaps — inside "__halt_compiler ( ) ;", before a keyword-named member —
+			// keep the lexer in a special state; a lone CR there combines two findings, so they stay protected)
+			if p.NoLoneCR && (!p.LoneCRInGaps || kind == GapWS) && hasLoneCR(w) {
 				if p.Excluded != nil {
 					*p.Excluded++
 				}
